@@ -45,6 +45,8 @@ def compute_domains_affine_eq(domains: NDArray, parameters: NDArray) -> int:
     :param parameters: the parameters of the propagator, a is an alias for parameters
     :return: the status of the propagation (consistency, inconsistency or entailment) as an int
     """
+    # products and sums of 32-bit coefficients and bounds need 64 bits (numpy scalars do not promote, unlike numba)
+    parameters = parameters.astype(np.int64)
     domain_sum_min = domain_sum_max = parameters[-1]
     for i, c in enumerate(parameters[:-1]):
         if c > 0:
@@ -62,10 +64,12 @@ def compute_domains_affine_eq(domains: NDArray, parameters: NDArray) -> int:
             else:
                 new_min = old_domains[i, MAX] - (-domain_sum_max // c)
                 new_max = old_domains[i, MIN] + (-domain_sum_min // -c)
-            domains[i, MIN] = max(domains[i, MIN], new_min)
-            domains[i, MAX] = min(domains[i, MAX], new_max)
-            if domains[i, MIN] > domains[i, MAX]:
+            new_min = max(domains[i, MIN], new_min)
+            new_max = min(domains[i, MAX], new_max)
+            if new_min > new_max:  # tested before storing: an empty range may not fit in 32 bits
                 return PROP_INCONSISTENCY
+            domains[i, MIN] = new_min
+            domains[i, MAX] = new_max
     # the constant must still be reachable on the filtered domains (e.g. 0 * x = 5 or 2 * x + 2 * y = 3)
     domain_sum_min = domain_sum_max = parameters[-1]
     for i, c in enumerate(parameters[:-1]):
